@@ -2,6 +2,7 @@ package main
 
 import (
 	"fmt"
+	"go/token"
 	"strings"
 
 	"golang.org/x/tools/go/ssa"
@@ -117,6 +118,7 @@ func c14(c *Ctx) {
 	c.ruleWhoMayCall(r, "ImmuStore.TruncateUptoTx", callTo(storeT+"TruncateUptoTx"), []string{"pkg/database.(*db).TruncateUptoTx"}, 1)
 
 	c14ExportBuffer(c, "C14.1/export-buffer-under-lock")
+	c14TxHolders(c, "C14.1/tx-holders-released")
 	// ---- C14.5 export of truncated transactions terminates ----------------------------------------------
 	r = "C14.5/truncated-export"
 	if f := c.mustFn(r, storeT+"readValueAt"); f != nil {
@@ -269,4 +271,46 @@ func c14ExportBuffer(c *Ctx, r string) {
 		return
 	}
 	c.ruleHeldAt(r, f, "use of shared value buffer", uses, "ImmuStore._valBsMux", true, nil)
+}
+
+
+// c14TxHolders: read-transaction holders come from a bounded pool (MaxActiveTransactions / read pool size): every holder
+// taken with allocTx is given back on every path that leaves the function, error paths included; a leak on the
+// "partially truncated transaction" error path exhausts the pool and every later read or export fails.
+func c14TxHolders(c *Ctx, r string) {
+	n := 0
+	alloc := callTo("pkg/database.(*db).allocTx", storeT+"fetchAllocTx")
+	release := callTo("pkg/database.(*db).releaseTx", storeT+"releaseAllocTx")
+	for _, f := range c.allFns {
+		if !fnInPkgs(f, []string{"pkg/database", "embedded/store"}) || len(f.Blocks) == 0 {
+			continue
+		}
+		if fnName(f) == "pkg/database.(*db).allocTx" || fnName(f) == storeT+"fetchAllocTx" {
+			continue
+		}
+		for i, in := range sites(f, alloc) {
+			n++
+			in := in
+			// on the error edge of the acquisition itself there is no holder to give back: the `if err != nil` that ends the
+			// block of the call (the result may have been spilled into a named result, so it is matched by shape)
+			fail := func(b *ssa.BasicBlock, succ int) bool {
+				if b != in.Block() || succ != 0 || len(b.Instrs) == 0 {
+					return false
+				}
+				ifi, ok := b.Instrs[len(b.Instrs)-1].(*ssa.If)
+				if !ok {
+					return false
+				}
+				bo, ok := ifi.Cond.(*ssa.BinOp)
+				return ok && bo.Op == token.NEQ && (desc(bo.Y) == "nil" || desc(bo.X) == "nil" || strings.Contains(desc(bo), "nil"))
+			}
+			q := &pathQ{fn: f, from: []ssa.Instruction{in}, to: isReturn, via: release, deferVia: true, barrier: fail}
+			w := q.bypass()
+			c.check(w == nil, r, fmt.Sprintf("%s:holder#%d", fnName(f), i), c.pos(in.Pos()), "the holder is released (or its release deferred) on every path to a return",
+				"a read-transaction holder taken from the pool can leave the function without being released: "+c.witnessStr(w))
+		}
+	}
+	if n < 8 {
+		c.undecided(r, "floor", fmt.Sprintf("%d holder acquisitions found (11 in pkg/database confirmed by hand)", n))
+	}
 }
